@@ -2981,7 +2981,7 @@ def groupby_reduce(
             result = result[..., ~mask]
             groups_ = groups_[..., ~mask]
 
-        if method == "blockwise" and len(pd.unique(groups_.reshape(-1))) != groups_.size:
+        if method == "blockwise" and len(pd.unique(np.asarray(groups_).reshape(-1))) != np.size(groups_):
             raise ValueError(
                 "method='blockwise' requires that all members of a group lie within a single block. "
                 "Rechunk the array (see rechunk_for_blockwise) or use method='map-reduce' or 'cohorts'."
